@@ -102,6 +102,11 @@ class _Canon(ast.NodeTransformer):
                    (list(inner.test.values) if isinstance(inner.test, ast.BoolOp) and isinstance(inner.test.op, ast.And) else [inner.test])
             node.test = ast.copy_location(ast.BoolOp(op=ast.And(), values=vals), node.test)
             node.body = inner.body
+        # C13: an if / else whose test is an `or` / `and` of negative operands only is the De Morgan dual with the branches swapped
+        if node.orelse and isinstance(node.test, ast.BoolOp) and all(_negative(v) for v in node.test.values):
+            dual = ast.And() if isinstance(node.test.op, ast.Or) else ast.Or()
+            node.test = ast.copy_location(ast.BoolOp(op=dual, values=[_negate(v) for v in node.test.values]), node.test)
+            node.body, node.orelse = node.orelse, node.body
         # C2b: a negative comparison with an else branch is the positive comparison with the branches swapped
         if node.orelse and isinstance(node.test, ast.Compare) and len(node.test.ops) == 1 and isinstance(node.test.ops[0], (ast.IsNot, ast.NotEq, ast.NotIn)):
             t = node.test
@@ -317,11 +322,13 @@ def _inline_single_use_temps(fn: ast.AST) -> None:
             i = 0
             while i + 1 < len(lst):
                 s0, s1 = lst[i], lst[i + 1]
-                if isinstance(s0, ast.Assign) and len(s0.targets) == 1 and isinstance(s0.targets[0], ast.Name) and isinstance(s1, (ast.Assign, ast.Return, ast.Expr)) \
-                        and getattr(s1, "value", None) is not None:
+                head = {ast.Assign: "value", ast.Return: "value", ast.Expr: "value", ast.If: "test", ast.Raise: "exc", ast.Assert: "test", ast.For: "iter"}.get(type(s1))
+                if isinstance(s0, ast.Assign) and len(s0.targets) == 1 and isinstance(s0.targets[0], ast.Name) and head is not None \
+                        and getattr(s1, head, None) is not None:
                     t = s0.targets[0].id
+                    hv = getattr(s1, head)
                     if stores.get(t, 0) == 1 and loads.get(t, 0) == 1 and t not in params and t not in declared and not isinstance(s0.value, (ast.Constant, ast.Name)) \
-                            and _first_impure_is(s1.value, t) and not (isinstance(s1, ast.Assign) and any(isinstance(y, ast.Name) and y.id == t for tg in s1.targets for y in ast.walk(tg))):
+                            and _first_impure_is(hv, t) and not (isinstance(s1, ast.Assign) and any(isinstance(y, ast.Name) and y.id == t for tg in s1.targets for y in ast.walk(tg))):
                         val = s0.value
 
                         class Sub(ast.NodeTransformer):
@@ -329,7 +336,7 @@ def _inline_single_use_temps(fn: ast.AST) -> None:
                                 if n.id == t and isinstance(n.ctx, ast.Load):
                                     return val
                                 return n
-                        s1.value = Sub().visit(s1.value)
+                        setattr(s1, head, Sub().visit(hv))
                         del lst[i]
                         return True
                 i += 1
@@ -352,7 +359,107 @@ def _inline_single_use_temps(fn: ast.AST) -> None:
                 break
 
 
+def _leaves(body, in_loop: bool) -> bool:
+    """every path through body ends in return / raise (or, inside a loop body, continue / break)"""
+    if not body:
+        return False
+    last = body[-1]
+    if isinstance(last, (ast.Return, ast.Raise)):
+        return True
+    if in_loop and isinstance(last, (ast.Continue, ast.Break)):
+        return True
+    if isinstance(last, ast.If):
+        return _leaves(last.body, in_loop) and _leaves(last.orelse, in_loop)
+    return False
+
+
+def _nest_guards(body, in_loop: bool):
+    """C11: `if c: <leaves>` followed by more statements  ->  `if c: <leaves> else: <the rest>` (guard clauses and nested if / else are one form)"""
+    out = []
+    for i, st in enumerate(body):
+        for fld in ("body", "orelse", "finalbody"):
+            b = getattr(st, fld, None)
+            if isinstance(b, list) and b and isinstance(b[0], ast.stmt) and not isinstance(st, (ast.FunctionDef, ast.AsyncFunctionDef, ast.ClassDef)):
+                loop = isinstance(st, (ast.For, ast.While, ast.AsyncFor)) and fld == "body"
+                setattr(st, fld, _nest_guards(b, loop or (in_loop and not isinstance(st, (ast.For, ast.While, ast.AsyncFor)))))
+        if isinstance(st, ast.Try):
+            for h in st.handlers:
+                h.body = _nest_guards(h.body, in_loop)
+        if isinstance(st, (ast.FunctionDef, ast.AsyncFunctionDef)):
+            st.body = _nest_guards(st.body, False)
+        elif isinstance(st, ast.ClassDef):
+            st.body = _nest_guards(st.body, False)
+        rest = body[i + 1:]
+        if isinstance(st, ast.If) and not st.orelse and rest and _leaves(st.body, in_loop):
+            st.orelse = _nest_guards(rest, in_loop)
+            out.append(st)
+            return out
+        out.append(st)
+    return out
+
+
+def _negative(e: ast.expr) -> bool:
+    return (isinstance(e, ast.UnaryOp) and isinstance(e.op, ast.Not)) or \
+        (isinstance(e, ast.Compare) and len(e.ops) == 1 and isinstance(e.ops[0], (ast.IsNot, ast.NotEq, ast.NotIn)))
+
+
+def _negate(e: ast.expr) -> ast.expr:
+    if isinstance(e, ast.UnaryOp) and isinstance(e.op, ast.Not):
+        return e.operand
+    if isinstance(e, ast.Compare) and len(e.ops) == 1 and type(e.ops[0]) in _NEG:
+        return ast.copy_location(ast.Compare(left=e.left, ops=[_NEG[type(e.ops[0])]()], comparators=e.comparators), e)
+    return ast.copy_location(ast.UnaryOp(op=ast.Not(), operand=e), e)
+
+
+class _Split(ast.NodeTransformer):
+    """C12: a conditional expression that is the whole value of an assignment / return becomes an if / else statement"""
+    def _stmts(self, body):
+        out = []
+        for st in body:
+            st = self.visit(st)
+            if isinstance(st, ast.Assign) and isinstance(st.value, ast.IfExp) and len(st.targets) == 1 and isinstance(st.targets[0], ast.Name):
+                v = st.value
+                a = ast.copy_location(ast.Assign(targets=[st.targets[0]], value=v.body, lineno=st.lineno), st)
+                b = ast.copy_location(ast.Assign(targets=[ast.Name(id=st.targets[0].id, ctx=ast.Store())], value=v.orelse, lineno=st.lineno), st)
+                out.append(ast.copy_location(ast.If(test=v.test, body=[a], orelse=[b]), st))
+            elif isinstance(st, ast.Return) and isinstance(st.value, ast.IfExp):
+                v = st.value
+                out.append(ast.copy_location(ast.If(test=v.test, body=[ast.copy_location(ast.Return(value=v.body), st)], orelse=[ast.copy_location(ast.Return(value=v.orelse), st)]), st))
+            else:
+                out.append(st)
+        return out
+
+    def generic_visit(self, node):
+        for fld in ("body", "orelse", "finalbody"):
+            b = getattr(node, fld, None)
+            if isinstance(b, list) and b and isinstance(b[0], ast.stmt):
+                setattr(node, fld, self._stmts(b))
+        if isinstance(node, ast.Try):
+            for h in node.handlers:
+                h.body = self._stmts(h.body)
+        return node
+
+
+class _DropAnn(ast.NodeTransformer):
+    """C14: `x: T = v` outside class bodies is `x = v` (annotations of locals and module-level names are not behaviour)"""
+    def visit_ClassDef(self, node: ast.ClassDef):
+        for st in node.body:
+            if isinstance(st, (ast.FunctionDef, ast.AsyncFunctionDef)):
+                self.visit(st)
+        return node
+
+    def visit_AnnAssign(self, node: ast.AnnAssign):
+        if node.value is not None and isinstance(node.target, ast.Name):
+            return ast.copy_location(ast.Assign(targets=[node.target], value=node.value, lineno=node.lineno), node)
+        return node
+
+
 def canonicalise(tree: ast.Module) -> ast.Module:
+    if os.environ.get("JV_CANON_C14", "1") == "1":
+        tree = _DropAnn().visit(tree)
+    if os.environ.get("JV_CANON_C11", "1") == "1":
+        tree = _Split().visit(tree)
+        tree.body = _nest_guards(tree.body, False)
     tree = _Canon().visit(tree)
     for n in ast.walk(tree):
         if isinstance(n, (ast.FunctionDef, ast.AsyncFunctionDef)):
